@@ -358,3 +358,13 @@ func (f *Fn) ConsumedBefore(rule string, a, b, stop Matcher) bool {
 	f.C.Pass(rule, f.Where(), what, fmt.Sprintf("%d×A %d×B", len(as), len(bs)))
 	return true
 }
+
+// FnByName returns the analysed function whose FuncName is name (nil if it is not a declared module function).
+func (c *Ctx) FnByName(name string) *Fn {
+	for _, fs := range c.P.AllFuncs() {
+		if FuncName(fs.Obj) == name {
+			return c.FnOfSrc(fs)
+		}
+	}
+	return nil
+}
